@@ -21,8 +21,8 @@ PARTIAL = ['the property in its own words is C01G.document_roundtrip: every well
            'grammar document is rebuilt from tokens and tree by an untrusted search and the hypotheses of '
            'C02.cert_sound / C01G.cert_sound are evaluated on it by the compiled definitions; counts in the '
            'cert_* statistics and the rule text); '
-           'restrictions of the proved grammar: single-token environment names, no continuation arguments after a '
-           'fixed-signature command']
+           'restriction of the proved grammar: single-token environment names (continuation arguments after a '
+           'fixed-signature command, `\\section{a}[b]`, are part of the grammar: Gram.runOK)']
 TRUSTED = ['harness/gen_doc.py (grammar of documented constructs, renderer with source spans, frame conditions)',
            'correspondence harness (props/c01.py, lib_doc.py, common.py)']
 ASSUMPTIONS = ['CPython str semantics', 'the model driver is the compiled form of the verified definitions',
